@@ -1,3 +1,5 @@
 import YardlModel.Wire
 import YardlModel.Streams
 import YardlModel.Batch
+import YardlModel.Expr
+import YardlModel.Imports
